@@ -130,6 +130,8 @@ def check(case):
 
 
 def run(ctx):
+    if ctx.shard == 0:  # one long score (tree depth == number of rows)
+        ctx.check_all([{'doc': D.long_document(1150 + 29 * (ctx.seed % 9), ctx.seed), 'filters': [['CORE'], ['BARLINES', 'LYRICS']], 'shape': 'list'}], check)
     ctx.run_hypothesis(cases(), check, max_examples=250 if ctx.quick else 2000, label='queries')
 
 
